@@ -111,6 +111,12 @@ def value_of(e, env):
         if k in tbl:
             return value_of(tbl[k], env)
         return value_of(e.args[1], env) if len(e.args) > 1 else None
+    if isinstance(e, ast.Subscript) and isinstance(e.value, ast.Name) and isinstance(env.get(e.value.id), dict):
+        k = value_of(e.slice, env)
+        d = env[e.value.id]
+        if k is not _NOVAL and not isinstance(k, list) and k in d and not isinstance(d[k], ast.AST):
+            return d[k]
+        return _NOVAL
     if isinstance(e, ast.Dict) and all(k is not None for k in e.keys):
         # a table display: only its keys matter for membership tests
         ks = [value_of(k, env) for k in e.keys]
@@ -182,15 +188,20 @@ def _apply_kept(expr, env):
     return expr
 
 
+LAST = {"env": {}}  # environment at the last undecidable test (for diagnostics and argument inspection)
+
+
 def run_chain(stmts, env, atoms=None, depth=0):
     """Interpret the control skeleton: returns ('return', expr) | ('raise', node) | ('fall', None) | ('unknown', node)"""
-    env = dict(env)
+    if depth == 0:
+        env = dict(env)  # nested blocks of a decided branch bind into the same environment
     for s in stmts:
         if isinstance(s, ast.Expr) and isinstance(s.value, ast.Constant):
             continue
         if isinstance(s, ast.If):
             v = eval_bool(s.test, env, atoms)
             if v is UNKNOWN:
+                LAST["env"] = dict(env)
                 return ("unknown", s.test)
             r = run_chain(s.body if v else s.orelse, env, atoms, depth + 1)
             if r[0] != "fall":
